@@ -1,6 +1,7 @@
 package main
 
 import (
+	"bytes"
 	"fmt"
 	"math"
 	"reflect"
@@ -10,6 +11,7 @@ import (
 	"unicode"
 
 	"github.com/lugu/qiloop/type/conversion"
+	"github.com/lugu/qiloop/type/encoding"
 )
 
 // ---- type / value token syntax (see lean/QiVerif/Driver/C20.lean) -----------
@@ -235,6 +237,24 @@ func execConvRT(a []string) string {
 	return "ok " + renderGo(dst.Elem()) + " back " + renderGo(back.Elem())
 }
 
+// convdec <target type> | <source type> | <value>: the value travels encoded (as the result of a call whose remote
+// signature differs from the expected one does) and is decoded into the target with conversion.DecodeFrom
+func execConvDec(a []string) string {
+	p := splitBar(a)
+	tt, _ := parseGType(p[0])
+	st, _ := parseGType(p[1])
+	src, _ := parseGVal(st, p[2])
+	var buf bytes.Buffer
+	if err := encoding.NewEncoder(nil, &buf).Encode(src.Interface()); err != nil {
+		return "encode-error"
+	}
+	dst := reflect.New(tt.rtype())
+	if err := conversion.DecodeFrom(encoding.NewDecoder(nil, &buf), dst.Interface(), st.rtype()); err != nil {
+		return "err"
+	}
+	return "ok " + renderGo(dst.Elem())
+}
+
 // convre <source type> | <target type> | <value 1> | <value 2>
 // the destination (and the destination of the way back) is used twice: what it held after the first
 // conversion must not show in the second
@@ -277,6 +297,10 @@ func hasMap(t *gtype) bool {
 
 func init() {
 	executors["convre"] = execConvReuse
+	executors["convdec"] = func(a []string) string {
+		p := splitBar(a) // same sections as conv: target | value | source
+		return execConvDec(append(append(append(append([]string{}, p[0]...), "|"), append(p[2], "|")...), p[1]...))
+	}
 	executors["conv"] = func(a []string) string {
 		// Lean-side syntax is "conv T | v"; the Go side needs the source type too,
 		// carried as a third section that the driver ignores: conv T | v | S
@@ -493,6 +517,56 @@ func compatTarget(r *Rand, t *gtype, o *Out) *gtype {
 	return &gtype{kind: t.kind}
 }
 
+// sameLayoutTarget: the same kinds in the same places — the same bytes on the wire — with the names of members of
+// one type exchanged among them: matching by name moves the values, matching by position would not
+func sameLayoutTarget(r *Rand, t *gtype) *gtype {
+	switch t.kind {
+	case "[":
+		return &gtype{kind: "[", elem: sameLayoutTarget(r, t.elem)}
+	case "{":
+		return &gtype{kind: "{", key: t.key, elem: sameLayoutTarget(r, t.elem)}
+	case "(":
+		u := &gtype{kind: "(", names: append([]string{}, t.names...)}
+		groups := map[string][]int{}
+		for i, f := range t.fields {
+			u.fields = append(u.fields, sameLayoutTarget(r, f))
+			groups[f.tokens()] = append(groups[f.tokens()], i)
+		}
+		for _, g := range groups {
+			if len(g) > 1 {
+				p := permN(r, len(g))
+				for k, i := range g {
+					u.names[i] = t.names[g[p[k]]]
+				}
+			}
+		}
+		return u
+	}
+	return &gtype{kind: t.kind}
+}
+
+// a source type with several members of one type (so that names can be exchanged without changing the layout)
+func genTwinStruct(r *Rand, depth int) *gtype {
+	u := &gtype{kind: "("}
+	n := 2 + r.Intn(3)
+	base := genGType(r, depth-1, false)
+	for i := 0; i < n; i++ {
+		u.names = append(u.names, fieldNames[i])
+		if r.Chance(75) {
+			u.fields = append(u.fields, base)
+		} else {
+			u.fields = append(u.fields, genGType(r, depth-1, false))
+		}
+	}
+	switch r.Intn(3) {
+	case 0:
+		return &gtype{kind: "[", elem: u}
+	case 1:
+		return &gtype{kind: "(", names: []string{"Inner", "N"}, fields: []*gtype{u, {kind: "i32"}}}
+	}
+	return u
+}
+
 // clashTarget replaces one position (reached through non-empty containers) by a
 // type of an incompatible kind.  Returns nil if no such position exists.
 func clashTarget(r *Rand, t *gtype, val []string) (*gtype, bool) {
@@ -588,6 +662,16 @@ func runC20(r *Rand, tier string, o *Out) {
 				continue
 			}
 		}
+		if i%9 == 4 {
+			// the same layout under other names: members of one type exchange their names
+			st = genTwinStruct(r, depth)
+			val = genValTokens(r, st)
+			tt := sameLayoutTarget(r, st)
+			o.Do("P", fmt.Sprintf("conv %s | %s | %s", tt.tokens(), val, st.tokens()), true)
+			o.Do("P", fmt.Sprintf("convdec %s | %s | %s", tt.tokens(), val, st.tokens()), true)
+			o.Count("case:same-layout-other-names")
+			continue
+		}
 		switch r.Intn(10) {
 		case 0, 1, 2, 3, 4, 5: // compatible: preserved and converting back recovers the source
 			tt := compatTarget(r, st, o)
@@ -598,6 +682,10 @@ func runC20(r *Rand, tier string, o *Out) {
 				o.Fail(c20Class(st, tt), fmt.Sprintf("convrt %s | %s | %s => %s (want back %s)", st.tokens(), tt.tokens(), val, res, want))
 			}
 			o.Count("case:compatible")
+			if r.Bool() {
+				o.Do("P", fmt.Sprintf("convdec %s | %s | %s", tt.tokens(), val, st.tokens()), true)
+				o.Count("case:compatible-through-DecodeFrom")
+			}
 		case 6, 7: // incompatible kinds: must be refused
 			tt, _ := clashTarget(r, st, strings.Fields(val))
 			res := o.Do("P", fmt.Sprintf("conv %s | %s | %s", tt.tokens(), val, st.tokens()), true)
@@ -612,6 +700,10 @@ func runC20(r *Rand, tier string, o *Out) {
 			}
 			o.Do("X", fmt.Sprintf("conv %s | %s | %s", tt.tokens(), val, st.tokens()), true)
 			o.Count("case:arbitrary")
+			if r.Chance(30) {
+				o.Do("X", fmt.Sprintf("convdec %s | %s | %s", tt.tokens(), val, st.tokens()), true)
+				o.Count("case:arbitrary-through-DecodeFrom")
+			}
 		}
 	}
 }
